@@ -2,7 +2,8 @@
 //! The process ignores SIGXFSZ and moves its soft RLIMIT_FSIZE, so that writes to the output file fail with
 //! EFBIG at byte granularity (the kernel stores the part of a request that fits and fails the next write).
 //!   hist <caphex> <pol> <op>...   a history on a real ragc_common::Archive (output mode), then close(), then drop
-//!     cap: must be 400000 (the capacity archive.rs gives its BufWriter); pol: inf | L1:<limithex>
+//!     cap: the capacity archive.rs gives its BufWriter as the translator read it (used by the model, ignored here);
+//!     pol: inf | L1:<limithex>
 //!     ops: r:<hexname>  a:<sid>:<data>:<meta>  b:<sid>:<data>:<meta>  f  s:<sid>:<raw>  l:1:<limithex> | l:inf
 //!     data: - | <hex> | @<lenhex>.<seedhex> (LCG bytes)
 //!   -> W=<result per op> C=<ok|err of close> F=<len>.<fnv1a64 of the file after drop>
@@ -107,9 +108,7 @@ pub fn run(t: &[&str]) -> String {
     let _restore = Unlimit;
     match t {
         ["hist", cap, p0, ops @ ..] => {
-            if h64(cap) != 4 * 1024 * 1024 {
-                return "HARNESS-ERROR the Archive's BufWriter capacity is fixed".into();
-            }
+            let _ = cap; // the capacity is whatever archive.rs gives its BufWriter; the token is for the model
             let lim = match pol(p0) {
                 Ok(l) => l,
                 Err(e) => return e,
